@@ -21,7 +21,8 @@ import Nstd.Server.ModelC14
                                 sus:<id> res:<id> rd:<id> wr:<id>:<n>:<outcome>      (`-` = none)
      act <act>                  the same API call at top level
      mkpair <id> | mklisten <id> | mkconn <id>     Server::pair / listen / connect
-     psend <id> <n> | pclose <id> | dial <id> | adv <ms>     environment
+     psend <id> <n> | pclose <id> | dial <id> | adv <ms> | cfail <id>     environment (cfail: the pending
+                                connect of establisher <id> will report an error)
      run <outcome> <entry>...   Server::run(); one entry per epoll_wait call:
                                 [I][<id>,<id>,...|-][+<ms>]  (I = interrupt() arrives during the call;
                                 ids = sockets the kernel reports, in this order, if really ready;
@@ -213,6 +214,7 @@ def stepLine (s : St) (ws : List String) : Option (St × String) :=
   | ["pclose", i] => do let s' := envStep s (.peerClose (← i.toNat?)); pure (s', out s' "ok")
   | ["dial", i] => do let s' := envStep s (.dial (← i.toNat?)); pure (s', out s' "ok")
   | ["adv", d] => do let s' := envStep s (.advance (← d.toNat?)); pure (s', out s' "ok")
+  | ["cfail", i] => do let s' := envStep s (.connFail (← i.toNat?)); pure (s', out s' "ok")
   | "run" :: o :: entries => do
     let o ← C13.parseOutcome o
     let es ← entries.mapM parseEntry
